@@ -44,6 +44,24 @@ static void enumerateAll(bool th, const std::function<void(const Spec &)> &f) {
                 s.aux = 0;
                 f(s);
               }
+  // (a') extreme spans: each dimension of a net's bounding box fits in an int (2.1e9 < 2^31) but their sum does not
+  for (int o = 0; o < 8; ++o)
+    for (int w = 1; w <= 2; ++w)
+      for (int far = 0; far < 4; ++far) {
+        Spec s;
+        s.rows = {mkRow(0, 10, 0, 1, oN)};
+        const int D = 1050000000;
+        CellSpec a; a.w = w; a.h = 3 - w; a.orient = o; a.x = (far & 1) ? D : -D; a.y = (far & 2) ? D : -D;
+        CellSpec b; b.w = 2; b.h = 1; b.orient = (o * 3 + 1) % 8; b.x = -a.x; b.y = -a.y; b.fixed = (far == 3);
+        CellSpec m; m.w = 1; m.h = 1; m.x = 3; m.y = -7;
+        s.cells = {a, b, m};
+        NetSpec n1; n1.pins = {{0, 1, 0}, {1, 0, 1}};
+        NetSpec n2; n2.pins = {{0, 0, 1}, {2, 0, 0}, {1, 1, 0}};
+        NetSpec n3; n3.pins = {{2, 0, 0}, {1, 0, 0}};
+        s.nets = {n1, n2, n3};
+        s.aux = 0;
+        f(s);
+      }
   // (b) incremental model graphs: small circuits from the tiny-circuit alphabet with a net menu
   Cfg cfg;
   cfg.rhs = {2};
